@@ -21,6 +21,7 @@ EXPLANATION = (
     "close/connect, returned state, branch condition) compared with Tables 9-6..9-9; the "
     "dispatcher do_action/transition and the PDU-type/primitive -> event maps are checked "
     "structurally. Nothing is executed."
+    " Third session: (artim-run-state) only Timer.__init__/start/stop/restart may change whether a timer is running - a getter or the timeout setter that restarts a stopped ARTIM timer makes Evt18 arrive in a state without a transition; (artim-configured) borrowed from C08's timeout propagation."
 )
 
 
